@@ -12,6 +12,7 @@ import ScnrVerif.Model.Minimize
 import ScnrVerif.Model.Compile
 import ScnrVerif.Model.Agree
 import ScnrVerif.Model.Registry
+import ScnrVerif.Model.DotText
 import Std.Data.HashMap
 /-!
 # Line-protocol driver for the executable model (`lake exe scnr_model < case.in`)
@@ -739,6 +740,28 @@ def step (st : DState) (line : String) : DState × Option String :=
         else
           (st, some ("\n".intercalate (runEquiv X Y reps [0] (normP pats) false "equiv")))
     | _, _ => (st, some "bad-op")
+  | "dottext" :: m :: r =>
+    -- C18 text layer: the written file (code points) is parsed and decoded by the Lean parser
+    -- (`parseDot`, `decodeDot`; round trip proved: `decodeDot_parseDot_renderDot`); the decoded
+    -- document must be the picture of the compiled mode (order-insensitive comparison)
+    match m.toNat?.bind fun m => st.modes[m]? with
+    | none => (st, some "bad-op")
+    | some M =>
+      let text := r.filterMap String.toNat?
+      let want := dotDoc M
+      let canon := fun (d : DotDoc) =>
+        let cl := (d.clusters.toArray.qsort fun a b => a.tid < b.tid).toList
+        showDGraph d.main ++ s!" {cl.length}" ++
+          String.join (cl.map fun c => s!" {c.tid} {if c.positive then 1 else 0}" ++ showDGraph c.g)
+      (st, some ("dottext done\n" ++
+        (match parseDot text with
+        | none => "S FAIL the written file is not well-formed DOT (rejected by the verified parser parseDot)"
+        | some t =>
+          match decodeDot t with
+          | none => "S FAIL the written DOT does not have the documented structure (decodeDot)"
+          | some d =>
+            if canon d == canon want then "S ok"
+            else "S FAIL the picture (as parsed by parseDot/decodeDot) differs from the compiled automaton (nodes, accepting labels, edges, class ids or lookahead clusters)")))
   | "kpat" :: m :: t :: r =>
     match m.toNat?, t.toNat?, parseCAst r with
     | some m, some t, some (a, []) =>
